@@ -53,12 +53,16 @@ def gen_case(rng, idx, tier):
         rules = []
         for _ in range(int(rng.integers(0, 3))):
             k = int(rng.integers(1, 4))
+            shape2 = None
+            if rng.random() < 0.35:          # a rule declared as a matrix
+                k = [4, 6][int(rng.integers(2))]
+                shape2 = [2, k // 2] if rng.random() < 0.5 else [k // 2, 2]
             mask = (rng.random((k, nz)) < 0.6).astype(int)
             A = np.round(rng.uniform(-2, 2, (k, nz)), 2) * mask
             A = np.where((mask == 1) & (A == 0), 0.5, A)
             rules.append({'n': k, 'mask': mask.tolist(), 'A': A.tolist(),
                           'b': np.round(rng.uniform(-2, 2, k), 2).tolist(),
-                          'order': int(rng.integers(3))})
+                          'order': int(rng.integers(3)), 'shape2': shape2})
         spec['rules'] = rules
         spec['late_rvar'] = bool(rng.random() < 0.25)
     else:
@@ -190,17 +194,26 @@ def run_ro(spec, ctx):
     z = m.rvar(tuple(spec['zshape']))
     nz = spec['nz']
     ys = []
+    def yel(r, y, i):
+        if r.get('shape2'):
+            c = r['shape2'][1]
+            return y[i // c, i % c]
+        return y[i]
+
+    def yshape(r):
+        return tuple(r['shape2']) if r.get('shape2') else (r['n'],)
+
     for r in spec['rules']:
-        y = m.ldr(r['n'])
+        y = m.ldr(yshape(r)) if r.get('shape2') else m.ldr(r['n'])
         mask = np.array(r['mask'])
         zf = z if len(spec['zshape']) == 1 else None
         for i in range(r['n']):
             for j in range(nz):
                 if mask[i, j]:
                     if zf is not None:
-                        y[i].adapt(z[j])
+                        yel(r, y, i).adapt(z[j])
                     else:
-                        y[i].adapt(z[j // 2, j % 2])
+                        yel(r, y, i).adapt(z[j // 2, j % 2])
         ys.append(y)
     w2 = m.rvar(2) if spec['late_rvar'] else None   # declared after adapt(); only used in queries
     zflat = z if len(spec['zshape']) == 1 else z.reshape((nz,))
@@ -223,7 +236,8 @@ def run_ro(spec, ctx):
     for r, y in zip(spec['rules'], ys):
         A = np.array(r['A'], float)
         b = np.array(r['b'], float)
-        m.st(y == A @ zflat + b)
+        rhs = A @ zflat + b
+        m.st(y == (rhs.reshape(yshape(r)) if r.get('shape2') else rhs))
     try:
         C.solve(m, 'def')
     except Exception as e:
@@ -288,19 +302,29 @@ def run_ro(spec, ctx):
         A = np.array(r['A'], float)
         b = np.array(r['b'], float)
         mask = np.array(r['mask'])
-        q.eq('ldr.get', y.get(), b)
-        wantA = np.where(mask == 1, A, np.nan).reshape((r['n'],) + tuple(spec['zshape']))
+        ysh = yshape(r)
+        tag = '2d' if r.get('shape2') else ''
+        q.eq('ldr%s.get' % tag, y.get(), b.reshape(ysh))
+        wantA = np.where(mask == 1, A, np.nan).reshape(ysh + tuple(spec['zshape']))
         if mask.any():
-            q.eq('ldr.get(z)', lambda: y.get(z), wantA)
+            q.eq('ldr%s.get(z)' % tag, lambda: y.get(z), wantA)
             j = int(rng.integers(nz))
             zj = z[j] if len(spec['zshape']) == 1 else z[j // 2, j % 2]
-            q.eq('ldr.get(z[j])', lambda: y.get(zj), np.where(mask[:, j] == 1, A[:, j], np.nan),
-                 shape=False)
+            q.eq('ldr%s.get(z[j])' % tag, lambda: y.get(zj),
+                 np.where(mask[:, j] == 1, A[:, j], np.nan).reshape(ysh), shape=False)
         v = np.round(rng.uniform(-1, 1, tuple(spec['zshape'])), 2)
-        q.eq('ldr(z.assign)', lambda: y(z.assign(v)), A @ v.reshape(-1) + b)
-        q.eq('ldr()', lambda: y(), b)
+        q.eq('ldr%s(z.assign)' % tag, lambda: y(z.assign(v)), (A @ v.reshape(-1) + b).reshape(ysh))
+        q.eq('ldr%s()' % tag, lambda: y(), b.reshape(ysh))
         i = int(rng.integers(r['n']))
-        q.eq('ldr[i](z.assign)', lambda: y[i](z.assign(v)), (A @ v.reshape(-1) + b)[i], shape=False)
+        q.eq('ldr%s[i](z.assign)' % tag, lambda: yel(r, y, i)(z.assign(v)),
+             (A @ v.reshape(-1) + b)[i], shape=False)
+        if r.get('shape2'):
+            q.eq('ldr2d.T(z.assign)', lambda: y.T(z.assign(v)),
+                 (A @ v.reshape(-1) + b).reshape(ysh).T)
+            q.eq('ldr2d[row](z.assign)', lambda: y[1](z.assign(v)),
+                 (A @ v.reshape(-1) + b).reshape(ysh)[1])
+            q.eq('ldr2d.sum(axis=0)(z.assign)', lambda: y.sum(axis=0)(z.assign(v)),
+                 (A @ v.reshape(-1) + b).reshape(ysh).sum(axis=0))
         # bi-affine expression with the rule and static variables
         e = 2.0 * y.sum() + (w[0] * (xf[0] if shape != () else x)) * zflat[0] + 1.0
         want = 2.0 * (A @ v.reshape(-1) + b).sum() + w[0] * base[0] * v.reshape(-1)[0] + 1.0
@@ -322,6 +346,8 @@ def run_ro(spec, ctx):
             terms.remove('addw')
         if not ({'addz', 'addw', 'prod'} & set(terms)):
             terms.append('addz')
+        if not ({'dec', 'prod'} & set(terms)):
+            terms.append('dec')      # an expression of random variables alone cannot be called
         vz = np.round(rng.uniform(-1, 1, tuple(spec['zshape'])), 2)
         vw = np.round(rng.uniform(-1, 1, 2), 2)
         cd = np.round(rng.uniform(-2, 2, x0.size), 2)
@@ -374,6 +400,7 @@ def run_ro(spec, ctx):
              'zshape': len(spec['zshape']), 'late_rvar': spec['late_rvar'],
              'robiaffine': sorted(fam),
              'atoms': sorted(set(used_atoms)), 'sense': spec['sense'],
+             'rule2d': sorted({str(r.get('shape2')) for r in spec['rules'] if r.get('shape2')}),
              'masks': sorted({'full' if np.array(r['mask']).all() else 'none'
                               if not np.array(r['mask']).any() else 'partial'
                               for r in spec['rules']})}
